@@ -534,6 +534,10 @@ def nested_case(case):
     model.systems.add_system(Rec('tail', model, priority=-9))
     for _ in range(case['t'] + 2):
         model.execute()
+    tail_runs = sum(1 for e in log if e[0] == 'tail')
+    if tail_runs != model.timestep:
+        raise Violation(f'a system that stays registered throughout (lowest priority) did not run once per step of the model '
+                        f'- outer and nested steps alike ({case})', expected=model.timestep, observed=tail_runs)
     bad = [e for e in log if e == ('victim', True)]
     if bad:
         raise Violation(f'a system removed during timestep {case["t"]} ran afterwards (another system advanced the model from '
